@@ -73,9 +73,19 @@ func (e *evo) newPay() *wire.MsgTx {
 // reorged-out or unconfirmed) wallet payments plus new ones.
 func (e *evo) blockTxs() []*wire.MsgTx {
 	var txs []*wire.MsgTx
+	// candidates: wallet payments that are not on the best chain at the moment.
+	// (Taken from the harness's own books, not from the node's mempool: the
+	// wallet's detached rebroadcast goroutine writes to that mempool at times of
+	// its own choosing, and the generated history must not depend on them.)
+	onChain := map[chainhash.Hash]bool{}
+	for hh := int32(0); hh <= e.ch.Height(); hh++ {
+		for _, t := range e.ch.BlockAt(hh).Transactions[1:] {
+			onChain[t.TxHash()] = true
+		}
+	}
 	var pool []chainhash.Hash
-	for h := range e.ch.MempoolTxs() {
-		if _, ok := e.pays[h]; ok {
+	for h := range e.pays {
+		if !onChain[h] {
 			pool = append(pool, h)
 		}
 	}
